@@ -24,6 +24,9 @@ type subjState struct {
 	Subs    []int // subscribed ids (sorted)
 	Zombie  []int // cut by an Unsubscribe still in progress: no more deliveries, may still be counted
 	Cnt     map[int]int
+	// LateBacklogLost selects the behaviour of known finding F1 (a subscriber arriving after a unicast
+	// subject terminated gets the terminal only): used to classify a violation, never to accept one.
+	LateBacklogLost bool
 }
 
 func (s subjState) clone() subjState {
@@ -87,6 +90,16 @@ func (s subjState) accept(in subjIn, out subjOut) (bool, subjState) {
 		case in.Op == "count" && out.Answer >= len(s.Subs) && out.Answer <= len(s.Subs)+len(s.Zombie):
 		default:
 			return false, ns
+		}
+	}
+	// two-phase Unsubscribe of the single unicast subscriber: while it is in progress the slot may
+	// still be taken, so a concurrent Subscribe may be rejected
+	if s.Kind == "unicast" && in.Op == "subscribe" && s.Status == 0 && len(s.Subs) == 0 && len(s.Zombie) > 0 {
+		rej := fmt.Sprintf("[s%d@%d:E(e%d)]", in.A, s.Cnt[in.A], errConcurrentCode)
+		if fmt.Sprint(out.Deliv) == rej {
+			rs := s.clone()
+			rs.Cnt[in.A] = s.Cnt[in.A] + 1
+			return true, rs
 		}
 	}
 	want, got := bySub(d), bySub(out.Deliv)
@@ -230,10 +243,12 @@ func (s subjState) step(in subjIn) (deliv []string, answer int, ns subjState) {
 				emit(in.A, n(s.Last))
 			}
 		case "unicast":
-			for _, v := range s.Buf {
-				emit(in.A, n(v))
+			if !s.LateBacklogLost {
+				for _, v := range s.Buf {
+					emit(in.A, n(v))
+				}
+				ns.Buf = nil
 			}
-			ns.Buf = nil
 		}
 		emit(in.A, term())
 	case "unsubscribe":
@@ -272,23 +287,38 @@ func (o subjOut) key() string {
 	return fmt.Sprintf("%v/%d", d, o.Answer)
 }
 
-func subjModel(kind string, buf int) porcupine.Model {
-	return porcupine.Model{
-		Init: func() interface{} {
-			st := subjState{Kind: kind, BufSize: buf, Cnt: map[int]int{}}
+// acceptAll returns every state the definition allows after the operation with this output
+// (more than one only while an Unsubscribe of the single unicast subscriber is in progress).
+func (s subjState) acceptAll(in subjIn, out subjOut) []interface{} {
+	var res []interface{}
+	if ok, ns := s.accept(in, out); ok {
+		res = append(res, ns)
+	}
+	if s.Kind == "unicast" && in.Op == "next" && s.Status == 0 && len(s.Subs) == 0 && len(s.Zombie) > 0 && len(out.Deliv) == 0 {
+		// handed to the subscriber that is being unsubscribed: dropped rather than queued
+		res = append(res, s.clone())
+	}
+	return res
+}
+
+func subjModel(kind string, buf int, f1 bool) porcupine.Model {
+	nm := porcupine.NondeterministicModel{
+		Init: func() []interface{} {
+			st := subjState{Kind: kind, BufSize: buf, Cnt: map[int]int{}, LateBacklogLost: f1}
 			if kind == "behavior" {
 				st.Last, st.HasLast = 900, true
 			}
-			return st
+			return []interface{}{st}
 		},
-		Step: func(state, input, output interface{}) (bool, interface{}) {
-			return state.(subjState).accept(input.(subjIn), output.(subjOut))
+		Step: func(state, input, output interface{}) []interface{} {
+			return state.(subjState).acceptAll(input.(subjIn), output.(subjOut))
 		},
 		Equal: func(a, b interface{}) bool { return a.(subjState).key() == b.(subjState).key() },
 		DescribeOperation: func(input, output interface{}) string {
 			return fmt.Sprintf("%v -> %v", input, output.(subjOut).key())
 		},
 	}
+	return nm.ToModel()
 }
 
 // ---- scenario ------------------------------------------------------------------------------------
@@ -487,15 +517,31 @@ func runC10(e *Env) {
 	if stray > 0 {
 		e.Violate("C10", "stray-delivery", "a delivery happened outside any operation")
 	}
-	model := subjModel(kind, mbuf)
+	model := subjModel(kind, mbuf, false)
 	if clients == 1 {
 		// sequential: exact, operation by operation
-		st := model.Init()
+		var st interface{} = subjState{Kind: kind, BufSize: mbuf, Cnt: map[int]int{}}
+		if kind == "behavior" {
+			st = subjState{Kind: kind, BufSize: mbuf, Cnt: map[int]int{}, Last: 900, HasLast: true}
+		}
 		for i, r := range recs {
-			ok, ns := model.Step(st, r.in, r.out)
+			ok, ns := st.(subjState).accept(r.in, r.out)
 			if !ok {
 				d, a, _ := st.(subjState).step(r.in)
-				e.Violate("C10", "sequential:"+r.in.Op, fmt.Sprintf("%s subject (buf %d), op #%d %v of %v: observed %s, definition says %s", kind, buf, i, r.in, sc.Ops, r.out.key(), subjOut{d, a}.key()))
+				clause := "sequential:" + r.in.Op
+				if kind == "unicast" && r.in.Op == "subscribe" {
+					// classify: is it exactly "backlog lost for a subscriber arriving after termination"?
+					alt := st.(subjState).clone()
+					alt.LateBacklogLost = true
+					if ok2, ns2 := alt.accept(r.in, r.out); ok2 {
+						clause = "sequential:unicast-backlog-after-termination"
+						e.Violate("C10", clause, fmt.Sprintf("unicast subject (buf %d), op #%d %v of %v: observed %s, definition says %s", buf, i, r.in, sc.Ops, r.out.key(), subjOut{d, a}.key()))
+						ns2.LateBacklogLost = false
+						st = ns2
+						continue
+					}
+				}
+				e.Violate("C10", clause, fmt.Sprintf("%s subject (buf %d), op #%d %v of %v: observed %s, definition says %s", kind, buf, i, r.in, sc.Ops, r.out.key(), subjOut{d, a}.key()))
 				return
 			}
 			st = ns
@@ -535,7 +581,11 @@ func runC10(e *Env) {
 		for _, r := range recs {
 			fmt.Fprintf(&sb, "[c%d %v @%d-%d -> %s] ", r.client, r.in, r.call, r.ret, r.out.key())
 		}
-		e.Violate("C10", "not-linearizable", fmt.Sprintf("%s subject (buf %d): history is not linearizable w.r.t. the sequential definition: %s", kind, buf, sb.String()))
+		clause := "not-linearizable"
+		if kind == "unicast" && porcupine.CheckOperationsTimeout(subjModel(kind, mbuf, true), ops, 20*time.Second) == porcupine.Ok {
+			clause = "not-linearizable:unicast-backlog-after-termination"
+		}
+		e.Violate("C10", clause, fmt.Sprintf("%s subject (buf %d): history is not linearizable w.r.t. the sequential definition: %s", kind, buf, sb.String()))
 	case porcupine.Unknown:
 		e.Probe("porcupine-timeout")
 	default:
